@@ -465,6 +465,8 @@ func c18RunImpl(c corr.Case) []string {
 				st = newState(tmp)
 				afero.VerifSetRandNum(0)
 				return "case"
+			case "temp-refused":
+				return c18Refused()
 			case "setrand":
 				afero.VerifSetRandNum(uint32(atoi(t[1])))
 				st.synced = true
@@ -499,6 +501,45 @@ func strip(s string) string {
 	return s
 }
 
+// c18Refused: where the file system refuses to create the entry for a reason other than "exists" (a read-only file
+// system; on the operating system's file system a missing directory, a regular file in its place), TempFile and TempDir
+// report the error: a call that returns no error has created the entry it names.
+func c18Refused() string {
+	tmp, err := os.MkdirTemp("/tmp", "verif-c18r-") // (TMPDIR is an input of the case: not used here)
+	if err != nil {
+		return "fail: " + err.Error()
+	}
+	defer os.RemoveAll(tmp)
+	os.WriteFile(filepath.Join(tmp, "plainfile"), []byte("x"), 0o644)
+	mem := afero.NewMemMapFs()
+	mem.MkdirAll("/d", 0o755)
+	type tc struct {
+		what string
+		fs   afero.Fs
+		dir  string
+	}
+	for _, c := range []tc{{"a read-only file system", afero.NewReadOnlyFs(mem), "/d"}, {"a missing directory (OsFs)", afero.NewOsFs(), filepath.Join(tmp, "missing", "deeper")},
+		{"a regular file as directory (OsFs)", afero.NewOsFs(), filepath.Join(tmp, "plainfile")}} {
+		name, err := afero.TempDir(c.fs, c.dir, "job-")
+		if err == nil {
+			if ok, _ := afero.DirExists(c.fs, name); !ok || name == "" {
+				return fmt.Sprintf("fail: TempDir in %s returned %q without an error, and no such directory exists", c.what, name)
+			}
+		}
+		f, err := afero.TempFile(c.fs, c.dir, "job-*.tmp")
+		if err == nil {
+			nm := f.Name()
+			f.Close()
+			if ok, _ := afero.Exists(c.fs, nm); !ok {
+				return fmt.Sprintf("fail: TempFile in %s returned %q without an error, and no such file exists", c.what, nm)
+			}
+		} else if f != nil {
+			return fmt.Sprintf("fail: TempFile in %s returned a file together with the error %v", c.what, err)
+		}
+	}
+	return "ok"
+}
+
 func c18Oracle(c corr.Case, impl []string) (string, int) {
 	for i, line := range c.Lines {
 		t := strings.Fields(line)
@@ -507,6 +548,9 @@ func c18Oracle(c corr.Case, impl []string) (string, int) {
 		}
 		if impl[i] == "panic" {
 			return "call panics: " + t[0], i
+		}
+		if t[0] == "temp-refused" && strings.HasPrefix(impl[i], "fail") {
+			return impl[i], i
 		}
 		if t[0] != "tempfile" && t[0] != "tempdir" && t[0] != "conc" {
 			continue
@@ -657,6 +701,12 @@ func c18Corpus() []corr.Case {
 			"stat " + c18H("/scratch/job/parts"), "stat " + c18H("/scratch/job"), "snapshot",
 			"removeall " + c18H("/scratch/job"), k + " " + c18H("/scratch/job/parts/deeper") + " " + c18H("r*"), "stat " + c18H("/scratch/job/parts/deeper"), "snapshot"}})
 	}
+	// the default directory is os.TempDir() at the time of the call, whatever it was at an earlier call
+	for _, tmpd := range []string{"/scratch/one", "/scratch/two", "/vtmp"} {
+		cases = append(cases, corr.Case{Lines: []string{"case " + c18H(tmpd), "setrand 11", "tempfile - " + c18H("part-*.bin"), "tempdir - " + c18H("job-"), "snapshot"}})
+	}
+	// refusals other than "the name exists"
+	cases = append(cases, corr.Case{Lines: []string{"case " + c18H(c18Tmp), "temp-refused"}})
 	// S14: exclusive create must be atomic — callers that all draw the same candidates
 	for _, k := range []string{"f", "d"} {
 		l := []string{"case " + c18H(c18Tmp), "mkdirall " + c18H("/d") + " 493", fmt.Sprintf("conc 8 5 same %s 7 %s %s", k, c18H("/d"), c18H("t*"))}
